@@ -20,6 +20,7 @@ class FakeWriter:
         self.tag = tag
         self.close_delay = 0        # seconds the transport takes to finish closing (a stalled peer)
         self.drain_delay = 0        # seconds a write takes to drain (flow control paused: the peer stopped reading)
+        self.lost_with = None       # the error the transport was lost with: asyncio's wait_closed() re-raises it
 
     def write(self, b):
         self.writes += 1
@@ -40,6 +41,8 @@ class FakeWriter:
     async def wait_closed(self):
         if self.close_delay:
             await asyncio.sleep(self.close_delay)
+        if self.lost_with is not None:
+            raise self.lost_with
         return None
 
 
